@@ -203,6 +203,119 @@ bool runSetter(Sink &s, const std::string &id, Circuit &c, const SetterCall &sc,
   return outcome != "ok";
 }
 
+// ---------------------------------------------------------------- value histories of the net arrays (`nv*` lines)
+// A fresh Circuit(n) is driven through a history of addNet / setNets calls, mostly valid, some malformed in exactly one
+// way.  After every call the real netLimits_ / pinCells_ and the lengths of the offset / weight vectors are printed and
+// must equal what Model/NetsValue.lean computes; the direct oracle evaluates "internally consistent" on the real object
+// independently (limits start at 0, non-decreasing, end at the pin count; pins name cells; Circuit::check() passes; every
+// getter index in range) and "a refused call changes nothing".
+std::string nvState(bool ok, const Circuit &c, bool wf) {
+  return std::string("nv ") + (ok ? "ok" : "throw") + (wf ? " 1" : " 0") + " L " + vh::join(c.netLimits_, " ") + " P " + vh::join(c.pinCells_, " ") + " S " +
+         std::to_string(c.pinXOffsets_.size()) + " " + std::to_string(c.pinYOffsets_.size()) + " " + std::to_string(c.netWeights_.size());
+}
+
+// independent evaluation of the value invariant on the real members; "" when it holds
+std::string netsIllFormed(const Circuit &c) {
+  const auto &l = c.netLimits_;
+  if (l.empty()) return "netLimits_ is empty";
+  if (l.front() != 0) return "netLimits_ does not start at 0";
+  for (size_t i = 0; i + 1 < l.size(); ++i) if (l[i + 1] < l[i]) return "netLimits_ decreases at " + std::to_string(i);
+  if ((size_t)l.back() != c.pinCells_.size()) return "netLimits_.back() != pinCells_.size()";
+  if (c.pinXOffsets_.size() != c.pinCells_.size() || c.pinYOffsets_.size() != c.pinCells_.size()) return "offset vectors do not match the pins";
+  if (c.netWeights_.size() + 1 != l.size()) return "netWeights_ does not have one entry per net";
+  for (int pc : c.pinCells_) if (pc < 0 || pc >= c.nbCells()) return "a pin names cell " + std::to_string(pc) + " of " + std::to_string(c.nbCells());
+  return "";
+}
+
+void netsHistory(Sink &s, const std::string &id, vh::Rng &g) {
+  int nc = (int)g.range(0, 6);
+  Circuit c(nc);
+  s.op("nvnew " + std::to_string(nc));
+  s.impl(nvState(true, c, netsIllFormed(c).empty()));
+  s.eval();
+  int nops = (int)g.range(5, 14);
+  auto cellIn = [&]() { return nc > 0 ? (int)g.range(0, nc - 1) : 0; };
+  auto cellOut = [&]() { int k = (int)g.range(0, 3); return k == 0 ? -1 : k == 1 ? nc : k == 2 ? nc + (int)g.range(1, 5) : -(int)g.range(2, 9); };
+  for (int t = 0; t < nops; ++t) {
+    std::string before = snap(c);
+    std::string opLine, kind;
+    bool threw = false;
+    std::string exc;
+    if (g.chance(11, 20)) {
+      int k = (int)g.range(0, 4);
+      std::vector<int> cells;
+      for (int i = 0; i < k; ++i) cells.push_back(cellIn());
+      size_t nx = k, ny = k;
+      kind = "add_valid";
+      if (nc == 0 && k > 0) kind = "add_pin_of_empty_circuit";
+      int m = (int)g.range(0, 9);
+      if (m == 0 && k > 0) { cells[g.range(0, k - 1)] = cellOut(); kind = "add_pin_out_of_range"; }
+      else if (m == 1) { nx = k + (g.chance(1, 2) || k == 0 ? 1 : -1); kind = "add_x_length"; }
+      else if (m == 2) { ny = k + (g.chance(1, 2) || k == 0 ? 1 : -1); kind = "add_y_length"; }
+      if (k == 0 && kind == "add_valid") kind = "add_empty_net";
+      opLine = "nvadd " + std::to_string(k) + (k ? " " : "") + vh::join(cells, " ") + " " + std::to_string(nx) + " " + std::to_string(ny);
+      std::vector<int> xs(nx, 1), ys(ny, -2);
+      try { c.addNet(cells, xs, ys, 1.5f); } catch (const std::exception &e) { threw = true; exc = vc::exClass(e); } catch (...) { threw = true; exc = "throw:other"; }
+    } else {
+      int m = (int)g.range(0, 4);
+      std::vector<int> limits{0}, cells;
+      for (int i = 0; i < m; ++i) {
+        int k = (int)g.range(0, 3);
+        for (int j = 0; j < k; ++j) cells.push_back(cellIn());
+        limits.push_back((int)cells.size());
+      }
+      size_t nx = cells.size(), ny = cells.size(), nw = g.chance(1, 2) ? 0 : (size_t)m;
+      kind = "set_valid";
+      if (nc == 0 && !cells.empty()) kind = "set_pin_of_empty_circuit";
+      int bad = (int)g.range(0, 24);
+      if (bad == 0) { limits.clear(); kind = "set_limits_empty"; }
+      else if (bad == 1) { for (int &v : limits) v += 1; kind = "set_front_not_zero"; }
+      else if (bad == 2 && limits.size() >= 3 && limits[limits.size() - 2] != limits.back()) { std::swap(limits[limits.size() - 2], limits[limits.size() - 1]); kind = "set_unsorted"; }
+      else if (bad == 3 && limits.size() >= 3 && limits[1] != limits[2]) { std::swap(limits[1], limits[2]); kind = "set_unsorted"; }
+      else if (bad == 4 && !cells.empty()) { cells.pop_back(); nx = ny = cells.size(); kind = "set_back_mismatch"; }
+      else if (bad == 5) { cells.push_back(cellIn()); nx = ny = cells.size(); kind = "set_back_mismatch"; }
+      else if (bad == 6) { nx += 1; kind = "set_x_length"; }
+      else if (bad == 7) { ny += 1; kind = "set_y_length"; }
+      else if (bad == 8) { nw = m + 1; kind = "set_weights_length"; }
+      else if (bad == 9 && m >= 2) { nw = m - 1; kind = "set_weights_length"; }
+      else if (bad == 10 && !cells.empty()) { cells[g.range(0, (long long)cells.size() - 1)] = cellOut(); kind = "set_pin_out_of_range"; }
+      else if (bad == 11) { limits[0] = -1; kind = "set_front_not_zero"; }
+      opLine = "nvset " + std::to_string(limits.size()) + (limits.empty() ? "" : " ") + vh::join(limits, " ") + " " + std::to_string(cells.size()) + (cells.empty() ? "" : " ") +
+               vh::join(cells, " ") + " " + std::to_string(nx) + " " + std::to_string(ny) + " " + std::to_string(nw);
+      std::vector<int> xs(nx, 3), ys(ny, 4);
+      std::vector<float> ws(nw, 0.25f);
+      try { c.setNets(limits, cells, xs, ys, ws); } catch (const std::exception &e) { threw = true; exc = vc::exClass(e); } catch (...) { threw = true; exc = "throw:other"; }
+    }
+    std::string ill = netsIllFormed(c);
+    s.op(opLine);
+    s.impl(nvState(!threw, c, ill.empty()));
+    s.eval();
+    s.count("nv_" + kind + (threw ? "_refused" : "_accepted"));
+    std::string where = "after `" + opLine + "` (" + (threw ? exc : "ok") + ") as call " + std::to_string(t) + " of a net history on Circuit(" + std::to_string(nc) + ")";
+    if (!ill.empty()) s.fail(id, "the circuit is not internally consistent: " + ill + " " + where);
+    if (threw && snap(c) != before) s.fail(id, "a refused net call modified the circuit " + where);
+    if (threw && exc != "throw:runtime_error") s.fail(id, "a net call ended with " + exc + " " + where);
+    bool checkThrew = false;
+    try { c.check(); } catch (...) { checkThrew = true; }
+    if (checkThrew) s.fail(id, "Circuit::check() throws " + where);
+    if (ill.empty()) {
+      // every read of the getters (ASan sees an out-of-bounds index; the returned cell must exist)
+      long long pinsSeen = 0;
+      for (int n = 0; n < c.nbNets(); ++n) {
+        if (c.nbPinsNet(n) < 0) s.fail(id, "nbPinsNet < 0 " + where);
+        for (int i = 0; i < c.nbPinsNet(n); ++i) {
+          int pc = c.pinCell(n, i);
+          (void)c.pinXOffsets_[c.netLimits_[n] + i];
+          ++pinsSeen;
+          if (pc < 0 || pc >= c.nbCells()) s.fail(id, "pinCell names no cell " + where);
+        }
+      }
+      if (pinsSeen != c.nbPins()) s.fail(id, "the nets do not partition the pins " + where);
+    }
+  }
+  s.count("nv_histories");
+}
+
 enum Stage { GLOBAL = 0, LEGALIZE = 1, DETAILED = 2 };
 const char *stageName(int st) { return st == GLOBAL ? "placeGlobal" : st == LEGALIZE ? "legalize" : "placeDetailed"; }
 
@@ -726,6 +839,7 @@ void runInstance(Sink &s, uint64_t seed, long long k, const std::string &id) {
     }
   }
   g_bail = false;
+  for (int h = 0; h < 3; ++h) netsHistory(s, id, g);
   for (auto &ln : g_szLines) { s.op(ln.first); s.impl(ln.second); s.eval(); }
   s.count("size_correspondence_lines", (long long)g_szLines.size());
   g_szLines.clear();
@@ -753,7 +867,7 @@ int main(int argc, char **argv) {
              "call all structural setters, Circuit::check() and a further placement call; after a failed legalization all "
              "members compared; after every setter call (accepted or refused) and every placement call (nested or not, "
              "returned or thrown) every per-cell getter must return nbCells() entries (size_oracle_checks), and the size "
-             "semantics must predict all member lengths (size_correspondence_lines).  non-trivial = instance that executed at least one placement call ending by an exception; "
+             "semantics must predict all member lengths (size_correspondence_lines); three value histories of the net arrays per instance (5..14 addNet/setNets calls on a fresh Circuit(0..6), valid or malformed in one of 12 ways: nv_* counts; the real netLimits_/pinCells_ equal the model's after every call; oracle: value invariant, Circuit::check(), every getter index in range, refused call changes nothing).  non-trivial = instance that executed at least one placement call ending by an exception; "
              "distinct by hash of the circuit";
   long long n = a.thorough() ? 3000 : (a.search() ? 600 : 300);
   std::vector<std::pair<uint64_t, long long>> ks;  // (seed, k)
